@@ -182,6 +182,9 @@ class VC:
                 n += 1
                 continue
             work.extend(ctx.alternatives)
+            for j, (label, hyps, goal, note) in enumerate(ctx.side):
+                self.obligations.append(Obligation(f"{self.prop}/{name}/side:{label}#{j}@p{n}", self.prop, "side", hyps, goal,
+                                                   list(p.functions), n, note=note, meta=dict(label=f"side:{label}", harness=name)))
             for k, c in ctx.called.items():
                 self.inlined[k] = self.inlined.get(k, 0) + c
             for k, c in ctx.summarised.items():
